@@ -63,7 +63,7 @@ def decode_result(sv_by_id):
 
 def k_binary_arith(ctx):
     P = ctx.prog('core')
-    f = P.find_one(r'^binary_arith$', 'evaluator.rs')
+    f = P.method('evaluator.rs', 'binary_arith', nargs=4)
     BOP = {}
     state = {}
 
@@ -132,7 +132,7 @@ def k_binary_arith(ctx):
 
 def k_unary_app(ctx):
     P = ctx.prog('core')
-    f = P.find_one(r'^unary_app$', 'evaluator.rs')
+    f = P.method('evaluator.rs', 'unary_app', nargs=3, arg0='UnaryOp')
     UOP = {}
     state = {}
 
